@@ -144,7 +144,7 @@ def compile_properties(pid):
 def build_runner():
     """Extract Runner.step and compile the OCaml driver (rebuilt only when the extracted code changes)."""
     BUILD.mkdir(exist_ok=True)
-    rc, out = sh(["timeout", "300", "coqc", "-Q", "../theories", "PV", "../extraction/Extract.v"], cwd=BUILD, timeout=330)
+    rc, out = sh(["timeout", "300", "coqc", "-Q", "../theories", "PV", "-Q", "../gen", "PVGen", "../extraction/Extract.v"], cwd=BUILD, timeout=330)
     if rc != 0:
         raise RuntimeError("extraction failed:\n" + out)
     drv = (VERIF / "runner/driver.ml").read_text()
@@ -509,6 +509,16 @@ def run_all_shards(pmod, tier, seed, nshards, budget_s):
 
 def kernel_crosscheck(pid, samples, state_expr="RState.init", extra_imports=""):
     """Re-evaluate sampled runner calls inside Coq with vm_compute; they must reproduce the runner's answers."""
+    if not samples:
+        return 0, True, ""
+    # literal size bounds the cost of type-checking cases.v: keep a token budget
+    picked, budget = [], 40000
+    for smp in samples:
+        cost = len(wire.enc(smp[1])) + len(wire.enc(smp[2]))
+        if cost <= budget:
+            picked.append(smp)
+            budget -= cost
+    samples = picked
     if not samples:
         return 0, True, ""
     WORK.mkdir(exist_ok=True)
